@@ -394,6 +394,8 @@ func (e *Enc) sort0(t types.Type) string {
 		return "Int"
 	case "math/big.Int":
 		return "Int"
+	case "cosmossdk.io/core/address.Codec":
+		return "Int"
 	}
 	// collections.Pair[A,B]
 	if n, ok := t.(*types.Named); ok && n.Obj().Pkg() != nil && n.Obj().Pkg().Path() == "cosmossdk.io/collections" && n.Obj().Name() == "Pair" {
